@@ -871,7 +871,7 @@ def rule_delete_checks_access_first(ctx):
         for nd in order:
             if nd[0] == "if":
                 for x in walk(nd[1], True):
-                    if x[0] == "bin" and x[1] == "&" and int_name(x[3]) == "DFACC_WRITE":
+                    if x[0] == "bin" and x[1] == "&" and "DFACC_WRITE" in (int_name(x[3]), int_name(x[2])):
                         checked = True
             if verdict is None and any(c[1] == "tbbtrem" for c in calls_in(nd[1], True)):
                 verdict = checked
